@@ -43,16 +43,27 @@ static std::vector<std::string> split_sep(const std::string &s, const std::strin
 static std::string run_pool(const std::string &line)
 {
     std::vector<std::string> recipes = split_sep(line, " ;; ");
-    std::vector<RCP<const Basic>> es;
+    // every recipe is evaluated twice so that eq/__cmp__ never see the same object on both
+    // sides (eq() has a pointer-identity shortcut)
+    std::vector<RCP<const Basic>> es, es2;
     std::vector<std::string> dumps;
-    std::ostringstream kept;
+    std::ostringstream kept, crashed;
+    std::vector<bool> alive = verif::survivors(recipes.size(), [&](size_t i) { verif::eval_recipe(recipes[i]); });
     for (size_t i = 0; i < recipes.size(); i++) {
+        if (!alive[i]) {
+            crashed << " [" << recipes[i] << "]";
+            continue;
+        }
         try {
             RCP<const Basic> e = verif::eval_recipe(recipes[i]);
             std::string d = verif::dump(*e);
             if (d.find("Opaque") != std::string::npos)
                 continue;
+            RCP<const Basic> e2 = verif::eval_recipe(recipes[i]);
+            if (verif::dump(*e2) != d)
+                continue; // not a function of the recipe (e.g. Dummy counters)
             es.push_back(e);
+            es2.push_back(e2);
             dumps.push_back(d);
             kept << (es.size() > 1 ? " " : "") << i;
         } catch (...) {
@@ -70,17 +81,19 @@ static std::string run_pool(const std::string &line)
         if (i)
             o << " ";
         for (size_t j = 0; j < es.size(); j++)
-            o << (eq(*es[i], *es[j]) ? "1" : "0");
+            o << (eq(*es[i], *es2[j]) ? "1" : "0");
     }
     o << " || ";
     for (size_t i = 0; i < es.size(); i++) {
         if (i)
             o << " ";
         for (size_t j = 0; j < es.size(); j++) {
-            int c = es[i]->__cmp__(*es[j]);
+            int c = es[i]->__cmp__(*es2[j]);
             o << (c == 0 ? "0" : c == -1 ? "-" : c == 1 ? "+" : "?");
         }
     }
+    if (!crashed.str().empty())
+        o << "\t#CRASHED:" << crashed.str();
     return o.str();
 }
 
